@@ -85,6 +85,38 @@ theorem C13_first_matching_regexp (table : List RouteEntry) (m : Nat → Bool) (
   have := hbefore j hjk
   simp [hje', hre, hm'] at this
 
+theorem zip_range_mem {α : Type} (l : List α) (p : Nat × α) (h : p ∈ (List.range l.length).zip l) : l[p.1]? = some p.2 := by
+  obtain ⟨i, hi, e⟩ := List.mem_iff_getElem.1 h
+  have hi' : i < l.length := by simpa using hi
+  have : p = (i, l[i]) := by rw [← e]; simp
+  rw [this]; simp [hi']
+
+/-- **Routing is sound**: whatever the table and the host, the entry a request is handled under either names that host
+exactly or is a regexp route whose pattern matches it — no request is ever handled under an upstream its Host does not
+name. (The precedence theorems above say *which* such entry; this one is the unconditional safety half.) -/
+theorem C13_route_sound (table : List RouteEntry) (m : Nat → Bool) (host : String) (i : Nat)
+    (h : routeHost table m host = some i) :
+    ∃ e, table[i]? = some e ∧ ((e.isRegexp = false ∧ e.host = host) ∨ (e.isRegexp = true ∧ m i = true)) := by
+  unfold routeHost at h
+  simp only at h
+  split at h
+  · rename_i p hp
+    have hm := List.mem_of_getLast? hp
+    rcases List.mem_filter.1 hm with ⟨hz, hq⟩
+    simp only [Bool.and_eq_true, Bool.not_eq_true', decide_eq_true_eq] at hq
+    cases h
+    exact ⟨p.2, zip_range_mem table p hz, Or.inl hq⟩
+  · rcases hf : ((List.range table.length).zip table).find? (fun p => p.2.isRegexp && m p.1) with _ | p
+    · simp [hf] at h
+    · simp only [hf, Option.map_some, Option.some.injEq] at h
+      have hq := List.find?_some hf
+      have hz := List.mem_of_find?_eq_some hf
+      simp only [Bool.and_eq_true] at hq
+      subst h
+      exact ⟨p.2, zip_range_mem table p hz, Or.inr hq⟩
+example : routeHost [⟨false, "a"⟩, ⟨true, ""⟩, ⟨false, "a"⟩] (fun _ => true) "a" = some 2 ∧
+    routeHost [⟨false, "a"⟩, ⟨true, ""⟩] (fun _ => true) "b" = some 1 := by decide
+
 /-- A Host that matches no route reaches no handler of any upstream: the router answers 421. -/
 theorem C13_no_match_none (table : List RouteEntry) (m : Nat → Bool) (host : String)
     (hs : ∀ e ∈ table, e.isRegexp = false → e.host ≠ host) (hr : ∀ i, m i = false) :
